@@ -12,6 +12,8 @@ def by_block(effs):
 def traced_paths(ctx, body, start, effs, stop=None, cap=20000):
     m = by_block(effs)
     for path in body.paths(start, stop=stop, cap=cap):
+        if not body.feasible(path):
+            continue
         tr = []
         for b in path:
             tr.extend(m.get(b, ()))
